@@ -14,6 +14,17 @@ Three ways of executing a *history* (a list of event names):
 Nothing here changes the library: the loader trace uses sys.monitoring, the
 abstract state reads class dictionaries.  The module itself imports only the
 standard library, so importing it does not disturb a pristine interpreter.
+
+Robustness against refactoring of the library (notes/ROBUSTNESS_GUIDE.md): whether a
+lazy attribute is still *pending* is decided WITHOUT looking inside the placeholder:
+right after `import periodictable` (pristine interpreter, start of every fresh
+interpreter) `record_placeholders()` keeps the very objects found in the class
+dictionaries of Element / Isotope / Ion under the lazy names; an attribute is pending
+exactly while the class dictionary still holds that object (a loader deletes or
+replaces it).  The loader trace (entries of the nested functions of
+core.delayed_load, of the private `_load_*` functions) is evidence only and optional:
+when those code objects do not exist the trace is simply empty, and "which event
+fired which loader" is read off the abstract state (pending before, not pending after).
 """
 import hashlib
 import json
@@ -339,30 +350,66 @@ def event_route(name):
 # --------------------------------------------------------------------------
 # abstract loader state
 # --------------------------------------------------------------------------
-def _kind(v):
+# The objects that `import periodictable` leaves in the class dictionaries under the lazy names
+# (the delayed-load placeholders), recorded by identity; the objects themselves are kept so that the
+# identities stay unique.  Recorded in the pristine interpreter (inherited by every fork) and at the
+# start of every fresh interpreter, in both cases before any event ran.
+_PLACEHOLDERS = {}          # (class name, attribute name) -> object
+_placeholders_recorded = [False]
+
+
+def _is_descriptor(v):
+    return hasattr(type(v), '__get__')
+
+
+def record_placeholders(force=False):
+    """Remember which object each class dictionary holds under each lazy attribute name.  Only
+    descriptors count (a placeholder has to intercept the first read); a plain class-level default
+    that is there from the start is plain data.  Nothing of the objects is inspected."""
+    if _placeholders_recorded[0] and not force:
+        return _PLACEHOLDERS
+    from periodictable import core
+    _PLACEHOLDERS.clear()
+    for cname in CLASSES:
+        cls = getattr(core, cname)
+        for a in ATTRS:
+            v = vars(cls).get(a, _SENTINEL)
+            if v is not _SENTINEL and _is_descriptor(v):
+                _PLACEHOLDERS[(cname, a)] = v
+    _placeholders_recorded[0] = True
+    return _PLACEHOLDERS
+
+
+def placeholder_names():
+    return sorted('%s.%s' % k for k in _PLACEHOLDERS)
+
+
+def _kind(v, placeholder=None):
     if v is _SENTINEL:
         return '-'                         # absent
-    if isinstance(v, property):
-        fget = v.fget
-        if getattr(fget, '__name__', '') == 'getfn' and 'delayed_load' in getattr(fget, '__qualname__', ''):
-            return 'P'                     # pending delayed-load property
-        return 'p'                         # some other property
+    if placeholder is not None and v is placeholder:
+        return 'P'                         # still the object the import put there: pending delayed load
+    if isinstance(v, property) or (hasattr(type(v), '__get__') and hasattr(type(v), '__set__')):
+        return 'p'                         # some other property / data descriptor
     return 'd'                             # plain data default
 
 
 def abstract_state(fine=False):
     from periodictable import core
+    record_placeholders()
     t = table()
     parts = []
     for cname in CLASSES:
         cls = getattr(core, cname)
-        parts.append(CLASS_LABEL[cname] + ':' + ''.join(_kind(cls.__dict__.get(a, _SENTINEL)) for a in ATTRS))
+        parts.append(CLASS_LABEL[cname] + ':' + ''.join(
+            _kind(vars(cls).get(a, _SENTINEL), _PLACEHOLDERS.get((cname, a))) for a in ATTRS))
     parts.append('props:' + ','.join(sorted(set(t.properties))))
     if fine:
         # multiplicity of every name in table.properties, capped at 2
         parts.append('mult:' + ','.join('%s=%d' % (n, min(2, t.properties.count(n)))
                                         for n in sorted(set(t.properties))))
-        # instance dictionaries of the representative atoms
+        # instance dictionaries of the representative atoms (layout of the library's objects: part of
+        # the abstraction only, never of an oracle; an atom without __dict__ contributes dots)
         reps = list(ROUTES.values()) + ['H', 'H[1]', 'Og', 'At', 'Cu', 'n']
         for spec in reps:
             try:
@@ -370,7 +417,7 @@ def abstract_state(fine=False):
             except Exception:
                 d = {}
             parts.append(spec + ':' + ''.join('i' if a in d else '.' for a in ATTRS + ['nuclear_spin']))
-        e, i = core.Element.__dict__.get('neutron', _SENTINEL), core.Isotope.__dict__.get('neutron', _SENTINEL)
+        e, i = vars(core.Element).get('neutron', _SENTINEL), vars(core.Isotope).get('neutron', _SENTINEL)
         parts.append('same-missing:%d' % int(e is i and e is not _SENTINEL))
     return '|'.join(parts)
 
@@ -409,7 +456,7 @@ def digest():
         for iso in e:
             k = repr(iso)
             rd(k + '.neutron', iso, 'neutron')
-            d[k + '.neutron(own)'] = 'neutron' in iso.__dict__
+            d[k + '.neutron(own)'] = 'neutron' in getattr(iso, '__dict__', ())
             d[k + '.nuclear_spin'] = safe(lambda: iso.nuclear_spin)
             rd(k + '.neutron_activation', iso, 'neutron_activation')
     # every group through delegation for a few isotopes / ions / isotope ions
@@ -471,9 +518,44 @@ _trace = []
 _trace_on = [False]
 
 
+TRACE_ANCHORS = ('getfn', 'setfn', 'clearprops')     # nested functions of core.delayed_load (private)
+
+
+def _code_names(code, out, depth=0):
+    out.add(code.co_name)
+    if depth < 6:
+        for c in code.co_consts:
+            if hasattr(c, 'co_name'):
+                _code_names(c, out, depth + 1)
+
+
+def trace_anchors():
+    """{name: found} for the PRIVATE code objects the loader trace knows by name: the nested functions of
+    core.delayed_load and the _load_* functions of periodictable/__init__.py.  They are optional
+    instrumentation: a tree without them gives an empty (or poorer) trace, never another verdict."""
+    import types
+    import periodictable
+    from periodictable import core
+    names = set()
+    for mod in (core, periodictable):
+        for v in list(vars(mod).values()):
+            if isinstance(v, types.FunctionType):
+                _code_names(v.__code__, names)
+            elif isinstance(v, type) and getattr(v, '__module__', '') == mod.__name__:
+                for m in list(vars(v).values()):
+                    f = getattr(m, '__func__', m)
+                    if isinstance(f, types.FunctionType):
+                        _code_names(f.__code__, names)
+    out = OrderedDict((n, n in names) for n in TRACE_ANCHORS)
+    for n in LOAD_GROUP:
+        out[n] = n in names
+    return out
+
+
 def start_trace():
     """Record entries of the delayed-load closures, of the _load_* functions and of the
-    loader init functions.  Foreign code objects are disabled at first sight."""
+    loader init functions.  Foreign code objects are disabled at first sight.  The closures and the
+    _load_* functions are found by name and are optional (see trace_anchors)."""
     if _trace_on[0]:
         return
     mon = sys.monitoring
@@ -739,9 +821,12 @@ def fresh_env():
     return env
 
 
-def pristine_import():
+def pristine_import(expected=None):
     """Make this process the pristine interpreter: third-party numpy/pyparsing (not events),
-    then `import periodictable`, and nothing else of the package.  Returns the package path."""
+    then `import periodictable`, and nothing else of the package.  Returns the package path.
+    *expected*: the submodules a fresh interpreter holds right after `import periodictable` (reported
+    by fresh_main); which helper modules the package imports for itself is the library's business, so
+    without it only the modules that are events of the alphabet must not be loaded yet."""
     enable_bytecode_cache()
     import numpy  # noqa
     import pyparsing  # noqa
@@ -749,11 +834,16 @@ def pristine_import():
     where = os.path.realpath(periodictable.__file__)
     if not where.startswith(repo_root() + os.sep):
         raise RuntimeError('periodictable imported from %s, not under %s' % (where, repo_root()))
+    record_placeholders()
     loaded = sorted(m for m in sys.modules if m.startswith('periodictable.'))
-    expected = ['periodictable.constants', 'periodictable.core', 'periodictable.density',
-                'periodictable.mass', 'periodictable.util']
-    if loaded != expected:
-        raise RuntimeError('interpreter is not pristine: %r' % loaded)
+    if expected is not None:
+        if loaded != sorted(expected):
+            raise RuntimeError('interpreter is not pristine: %r loaded, a fresh interpreter has %r after '
+                               '`import periodictable`' % (loaded, sorted(expected)))
+    else:
+        early = [m for m in loaded if m.split('.', 1)[1] in SUBMODULES]
+        if early:
+            raise RuntimeError('interpreter is not pristine: %r' % early)
     start_trace()
     return where
 
@@ -910,7 +1000,12 @@ class Walk(object):
                         self.kinds[k] = self.kinds.get(k, 0) + 1
                         if same is not True:
                             self.event_violations.append((h + prefix, name, same))
-                        for g, how in fired_groups(tr).items():
+                        fired = fired_groups(tr)
+                        for g in GROUPS:
+                            # read off the abstract state (needs no trace): pending before, not after
+                            if g not in fired and group_pending(s, g) and not group_pending(s2, g):
+                                fired[g] = 'untraced'
+                        for g, how in fired.items():
                             if not group_pending(s, g):
                                 continue            # guard returned, or an explicit re-load
                             key = '%s/%s/%s' % (g, event_route(name), how)
@@ -972,6 +1067,8 @@ def fresh_main(arg):
     req = json.loads(arg)
     out = {'where': os.path.realpath(periodictable.__file__),
            'pristine': sorted(m for m in sys.modules if m.startswith('periodictable.'))}
+    record_placeholders()                       # before any event: what the import left in the class dictionaries
+    out['placeholders'] = placeholder_names()
     out['values'] = replay_here(req.get('history', []))
     out['state'] = abstract_state(False)        # after the history, before any probe
     if req.get('digest_before'):
